@@ -107,7 +107,7 @@ class AccSim:
 
     def gen_world(self, rng, tier):
         profile = rng.choice(["construct", "construct", "refs", "assign"])
-        spec = objsim.gen_world(rng, profile, tier)
+        spec = objsim.gen_world(rng, profile, tier, no_twins=True)
         spec["switches"]["steps"] = rng.choice([4, 8, 12, 20])
         spec["switches"]["max_types"] = min(spec["switches"]["max_types"], 6)
         for b in spec["buffers"]:
